@@ -297,11 +297,15 @@ WitnessNoUpperNameBadFails ==
 
 \* All witnesses in one run: the invariant WitnessCollect is always TRUE and records in TLC
 \* registers which witnesses were seen; POSTCONDITION WitnessPost demands all of them.
-WitnessList == << ~WitnessNeverBothConnected, ~WitnessNothingDelivered, ~WitnessNoTamperDiscard,
-                  ~WitnessNoMixedListFails, ~WitnessNoUnsupportedIgnored, ~WitnessNoUnsupportedOnlyFails,
-                  ~WitnessNoDeliveryToHalfOpen, ~WitnessNoProfileMismatchFails,
-                  ~WitnessNoUpperNameConnects, ~WitnessNoUpperNameBadFails >>
-WitnessCollect == \A i \in 1..10 : WitnessList[i] => TLCSet(100 + i, TRUE)
+\* Seen(i, w): register 100+i is set once witness i was observed; the witness predicate is not
+\* evaluated any more afterwards (TLCGet first), which keeps the run cheap.
+Seen(i, violated) == (TLCGet(100 + i) = FALSE /\ violated) => TLCSet(100 + i, TRUE)
+WitnessCollect ==
+  /\ Seen(1, ~WitnessNeverBothConnected) /\ Seen(2, ~WitnessNothingDelivered)
+  /\ Seen(3, ~WitnessNoTamperDiscard) /\ Seen(4, ~WitnessNoMixedListFails)
+  /\ Seen(5, ~WitnessNoUnsupportedIgnored) /\ Seen(6, ~WitnessNoUnsupportedOnlyFails)
+  /\ Seen(7, ~WitnessNoDeliveryToHalfOpen) /\ Seen(8, ~WitnessNoProfileMismatchFails)
+  /\ Seen(9, ~WitnessNoUpperNameConnects) /\ Seen(10, ~WitnessNoUpperNameBadFails)
 WitnessInit == \A i \in 1..10 : TLCSet(100 + i, FALSE)
 WInit == WitnessInit /\ Init
 WitnessPost == \A i \in 1..10 : (TLCGet(100 + i) = TRUE) \/ PrintT(<<"WITNESS-MISSING", i>>) = FALSE
